@@ -4,7 +4,7 @@ CONSTANTS
   LogBlocks = {50}
   Extra = TRUE
   MaxLen = 4
-  Latests = {0, 627, 1000}
+  Latests = {0, 627}
   Rule = 127
   Seed = TRUE
   Guard = TRUE
